@@ -335,6 +335,35 @@ theorem records_resume_when_attached (m : Mach U) (o : Api.Op)
       (Api.step (m.attachLogger true) o).w.trace = (itemsEvents true items).reverse ++ m.w.trace :=
   log_mirrors_callbacks (m.attachLogger true) o herr
 
+theorem runL_append (m : Mach U) (a b : List LOp) : runL m (a ++ b) = runL (runL m a) b := by
+  simp [runL, List.foldl_append]
+
+theorem runL_ops (m : Mach U) (ops : List Api.Op) : runL m (ops.map LOp.op) = Api.run m ops := by
+  induction ops generalizing m with
+  | nil => rfl
+  | cons o r ih => exact ih (Api.step m o)
+
+/-- Whatever the history of attaching and detaching before (`pre`: any operations, any toggles), the records of
+everything done after the LATEST `attachLogger` call follow that call alone: the trace appended since then is a
+well-formed item list for the attachment `a` — callback groups headed by their records when `a = true`, callbacks
+only when `a = false` (`no_records_without_logger`). -/
+theorem records_follow_latest_attachment (m : Mach U) (pre : List LOp) (a : Bool) (ops : List Api.Op)
+    (herr : (runL m (pre ++ LOp.attach a :: ops.map LOp.op)).w.err = none) :
+    ∃ items : List (Item U), (∀ i ∈ items, i.ok a (runL m pre).w.cfg.verbose) ∧
+      (runL m (pre ++ LOp.attach a :: ops.map LOp.op)).w.trace =
+        (itemsEvents a items).reverse ++ (runL m pre).w.trace := by
+  have e : runL m (pre ++ LOp.attach a :: ops.map LOp.op) = Api.run ((runL m pre).attachLogger a) ops := by
+    rw [runL_append]
+    show runL ((runL m pre).attachLogger a) (ops.map LOp.op) = _
+    rw [runL_ops]
+  rw [e] at herr ⊢
+  exact log_mirrors_callbacks_run ((runL m pre).attachLogger a) ops herr
+
+-- non-vacuity of `records_follow_latest_attachment`: toggles before, then attached, then two operations, no contract violation
+example : (runL (Api.boot Demo.shape Demo.cfg Demo.ds ([] : List Demo.DU))
+      ([.op .update, .attach false, .op .update] ++ LOp.attach true :: [Api.Op.update, .react].map LOp.op)).w.err = none := by
+  decide +kernel
+
 -- non-vacuity of the two statements above: a detached / attached demonstration machine runs an update without contract violation
 example : (Api.step ((Api.boot Demo.shape Demo.cfg Demo.ds ([] : List Demo.DU)).attachLogger false) .update).w.err = none ∧
     (Api.step ((Api.boot Demo.shape Demo.cfg Demo.ds ([] : List Demo.DU)).attachLogger true) .update).w.err = none := by
@@ -467,7 +496,8 @@ Property theorems (for Props/INDEX.json):
       logging_noninterference_observables, logging_modes_agree
   (b') attachLogger_detach, attachLogger_frame, attachLogger_noninterference_run,
       attachLogger_positions_irrelevant, attachLogger_noninterference_observables,
-      no_records_while_detached, records_resume_when_attached
+      no_records_while_detached, records_resume_when_attached, records_follow_latest_attachment
+      (runL_append, runL_ops: helpers)
   (c) structure_report_fresh, structure_report, structure_report_replay, structure_report_run,
       report_refreshed_at_most_once, refresh_enter, refresh_exit, refresh_reset, refresh_immediate,
       refresh_update, refresh_react, no_refresh_request, no_refresh_setTask, no_refresh_planAppend,
